@@ -11,6 +11,12 @@ Oracle: harness.ref_wire.luba_deframe / sci_deframe (no code shared with the lib
 stream; the contents of the protocol object's queues (raw answers, transmit confirmations, info/settings,
 observed commands through a child DistributorQueue) must equal the reference's item sequences for every
 chunking; no exception may escape `data_received`.
+
+Reads that are split are reads at different times: while `data_received` runs, the `time` module's clock
+functions are replaced by a fake clock which the harness advances by the case's pauses (0 / 0.05 / 0.25 / 5 s)
+between the reads of a chunked feed and never inside the whole-stream feed, so any dependence of the receiver on
+a clock shows up as a dependence on the chunking.  Long streams (33..150 repetitions of well-formed frames,
+queues not drained) are part of both the sweep and the generated streams.
 """
 import logging
 
@@ -25,7 +31,10 @@ LEVEL = "exploration"
 RULE = ("one case = (protocol, byte stream, two chunkings); streams are drawn from the protocol grammar (see module "
         "docstring); distinct by fingerprint of (stream, chunkings); the deterministic sweep is distinct by construction; non-trivial = the reference deframer drops at least one "
         "frame (bad checksum / unknown command / impossible length) and delivers an item from a later frame, or the "
-        "stream contains a LUBA length byte >= 20 at a frame's length position")
+        "stream contains a LUBA length byte >= 20 at a frame's length position, or the reference delivers more than "
+        "32 items from one stream (long streams: 33..150 repetitions of well-formed frames, nothing drained in "
+        "between); every read of a chunked feed happens after a pause of 0 / 0.05 / 0.25 / 5 s on a clock that only "
+        "the harness advances (part of the case)")
 ASSUMPTIONS = [
     "resynchronisation rule (design choice, taken from the receivers' own state machines on well-formed prefixes): a "
     "LUBA frame dropped for a bad checksum or an unknown command code is consumed as a whole (length+4 bytes), the "
@@ -42,6 +51,10 @@ ASSUMPTIONS = [
     "received events with info 62/63 (bus errors), unknown info codes, event types 1 and 3, SCI codes 4/5/6 and SCI "
     "error frames with an undefined error number deliver nothing; SCI error frames (code 7, error 1..5) and status "
     "frames (codes 0, 1) deliver (id, code) to the info queue; unused data bytes of SCI frames are not inspected",
+    "pauses between reads exist only on the fake clock (time.monotonic / time / perf_counter and their _ns variants, "
+    "also where the driver module imported them by name); a receiver that reads time some other way is not covered; "
+    "the queues are not drained while a stream is fed (the property's observation point is their content AFTER "
+    "data_received), so a long stream needs as many queue slots as it has items",
     "a transmit confirmation is compared by tx_id; its decoded message is compared (frame bytes) only when the "
     "driver managed to decode one; an observed command is compared by the bytes of its frame",
 ]
@@ -155,20 +168,20 @@ class FakeClock:
     def advance(self, dt):
         self.now += dt
 
-    def call(self, fn, *a):
-        """fn(*a) with the fake clock in place; the real functions are back before this returns or raises."""
-        t = self.time
-        try:
-            for n, f in self.fakes.items():
-                setattr(t, n, f)
-            for attr, n in self.aliases:
-                setattr(self.module, attr, self.fakes[n])
-            return fn(*a)
-        finally:
-            for n, f in _REAL_CLOCK.items():
-                setattr(t, n, f)
-            for attr, n in self.aliases:
-                setattr(self.module, attr, _REAL_CLOCK[n])
+    def __enter__(self):
+        for n, f in self.fakes.items():
+            setattr(self.time, n, f)
+        for attr, n in self.aliases:
+            setattr(self.module, attr, self.fakes[n])
+        return self
+
+    def __exit__(self, *exc):
+        """the real functions are back before the feed returns or raises"""
+        for n, f in _REAL_CLOCK.items():
+            setattr(self.time, n, f)
+        for attr, n in self.aliases:
+            setattr(self.module, attr, _REAL_CLOCK[n])
+        return False
 
 
 def _chunks(stream, cuts):
@@ -182,20 +195,22 @@ def feed(proto, stream, chunks, gaps=(0.0,)):
     chunk k and chunk k+1.  Returns (queues, exc) with exc = None or (offset of the first byte of the failing
     chunk, exception)."""
     p, child = _new(proto)
-    clock = FakeClock()
     off = 0
     exc = None
-    for k, ch in enumerate(chunks):
-        if k:
-            clock.advance(gaps[(k - 1) % len(gaps)])
-        try:
-            clock.call(p.data_received, ch)
-        except Exception as e:  # noqa: the property forbids any exception here
-            if library_frame(e.__traceback__) is None:
-                raise
-            exc = (off, e)
-            break
-        off += len(ch)
+    # nothing but the receiver and these few lines runs while the clock is replaced (no Hypothesis code, no
+    # harness code that reads a clock); a garbage collection inside the window starts and ends inside it
+    with FakeClock() as clock:
+        for k, ch in enumerate(chunks):
+            if k:
+                clock.advance(gaps[(k - 1) % len(gaps)])
+            try:
+                p.data_received(ch)
+            except Exception as e:  # noqa: the property forbids any exception here
+                exc = (off, e)
+                break
+            off += len(ch)
+    if exc is not None and library_frame(exc[1].__traceback__) is None:
+        raise exc[1]
     return _collect(proto, p, child), exc
 
 
@@ -340,6 +355,8 @@ def nontrivial(case):
     ref = (RW.luba_deframe if case["proto"] == "luba" else RW.sci_deframe)(stream)
     if ref["malformed"]:
         return False
+    if sum(1 for t in ref["trace"] if t[0] == "delivered") > 32:
+        return True
     dropped = False
     for t in ref["trace"]:
         if t[0] in ("bad-checksum", "unknown-command", "bad-length"):
@@ -352,7 +369,10 @@ def nontrivial(case):
 
 
 def classify(case):
-    labs = ["%s:seg:%s" % (case["proto"], s) for s in case.get("segs", [])]
+    labs = ["%s:seg:%s" % (case["proto"], s if not s.startswith("long:") or "+" not in s else "long:mixture")
+            for s in case.get("segs", [])]
+    if "gaps" in case:
+        labs.extend("pause-between-reads:%gs" % g for g in sorted({g for gl in case["gaps"] for g in gl} | {case["pause"]}))
     labs.append("%s:tail:%s" % (case["proto"], case.get("tail", {}).get("mode", "none")))
     ref = (RW.luba_deframe if case["proto"] == "luba" else RW.sci_deframe)(bytes.fromhex(case["stream"]))
     if ref["malformed"]:
@@ -484,7 +504,18 @@ def _sci_trailer():
     )
 
 
-def _assemble(proto, segs, tailmode, trailer, cuts1, cuts2):
+LONG_COUNTS = [33, 40, 70, 150]
+LONG_MAX_BYTES = 1400        # generated long streams ("several hundred bytes"); the sweep goes up to 3600
+
+
+def _long_segments(frames, count, interleave):
+    """Many repetitions of well-formed frames: one kind after the other, or taking turns."""
+    if interleave:
+        return [("long:" + "+".join(k for k, _ in frames), b"".join(b for _, b in frames) * count)]
+    return [("long:" + k, b * count) for k, b in frames]
+
+
+def _assemble(proto, segs, tailmode, trailer, cuts1, cuts2, gaps=None, pause=None):
     body = b"".join(b for _, b in segs)
     tail = {"mode": tailmode, "len": 0}
     if tailmode == "direct":
@@ -497,13 +528,21 @@ def _assemble(proto, segs, tailmode, trailer, cuts1, cuts2):
             body += bytes((-len(body)) % 5) + trailer
         tail["len"] = len(trailer)
         tail["must_deliver"] = True
-    return {"proto": proto, "stream": body.hex(), "cuts": [cuts1, cuts2], "segs": [l for l, _ in segs], "tail": tail}
+    case = {"proto": proto, "stream": body.hex(), "cuts": [cuts1, cuts2], "segs": [l for l, _ in segs], "tail": tail}
+    if gaps is not None:
+        case["gaps"] = gaps
+    if pause is not None:
+        case["pause"] = pause
+    return case
 
 
 def stream_strategy(proto, with_malformed):
     seg = _luba_segment() if proto == "luba" else _sci_segment()
     trailer = _luba_trailer() if proto == "luba" else _sci_trailer()
     cuts = st.lists(st.integers(0, 4000), max_size=14)
+    gaps = st.lists(st.sampled_from(GAPS), min_size=1, max_size=6)
+    timing = st.tuples(gaps, gaps, st.sampled_from(GAPS))
+    valid = _luba_valid() if proto == "luba" else _sci_valid()
     keep = st.just(1)
     if with_malformed and proto == "luba":
         # deliberately malformed-for-type frames (those streams are set aside) are kept in about one stream
@@ -514,10 +553,27 @@ def stream_strategy(proto, with_malformed):
     def build(t):
         dirty = ((t[5] ^ 0x5BD1) * 40503) % 65521 % 40 == 0      # hashed: Hypothesis favours small integers
         segs = t[0] if dirty else [x for x in t[0] if x[0] != "malformed"]
-        return _assemble(proto, segs, t[1], t[2], t[3], t[4])
+        return _assemble(proto, segs, t[1], t[2], t[3], t[4], [t[6][0], t[6][1]], t[6][2])
 
-    return st.tuples(st.lists(seg, min_size=0, max_size=9),
-                     st.sampled_from(["none", "direct", "flushed", "flushed"]), trailer, cuts, cuts, keep).map(build)
+    def build_long(t):
+        frames, count, interleave, before, tailmode, tr, c1, c2, tm = t
+        frames = list(frames)
+        while len(frames) > 1 and sum(len(b) for _, b in frames) * 33 > LONG_MAX_BYTES:
+            frames.pop()
+        count = max(33, min(count, LONG_MAX_BYTES // sum(len(b) for _, b in frames)))
+        segs = list(before) + _long_segments(frames, count, interleave)
+        segs = [x for x in segs if x[0] != "malformed"]
+        return _assemble(proto, segs, tailmode, tr, c1, c2, [tm[0], tm[1]], tm[2])
+
+    normal = st.tuples(st.lists(seg, min_size=0, max_size=9),
+                       st.sampled_from(["none", "direct", "flushed", "flushed"]), trailer, cuts, cuts, keep,
+                       timing).map(build)
+    # long streams: 33..150 repetitions of one to four well-formed frames (in blocks or taking turns), optionally
+    # behind a few ordinary segments, with nothing draining the receiver's queues in between
+    long_ = st.tuples(st.lists(valid, min_size=1, max_size=4), st.sampled_from(LONG_COUNTS), st.booleans(),
+                      st.lists(seg, min_size=0, max_size=2), st.sampled_from(["none", "direct", "flushed"]), trailer,
+                      cuts, cuts, timing).map(build_long)
+    return st.one_of(*([normal] * 11 + [long_]))
 
 
 # ------------------------------------------------------------------------ shards ----
@@ -596,6 +652,52 @@ def _sweep_cases():
                "tail": {"mode": "direct", "len": 5}}
     yield {"proto": "sci", "stream": RW.sci_frame(0x03, 0, *UNKNOWN16).hex(), "cuts": [], "segs": ["observed-unknown"]}
     yield {"proto": "sci", "stream": RW.sci_frame(0x08, *UNKNOWN24).hex(), "cuts": [], "segs": ["observed-unknown"]}
+    # long streams: many repetitions of every well-formed frame kind, and mixtures, nothing drained in between
+    kinds = {
+        "luba": [("backward", RW.luba_event_received([0x5A])),
+                 ("sent", RW.luba_event_sent(7, POOL16[0])),
+                 ("sent24", RW.luba_event_sent(9, POOL24[0])),
+                 ("observed16", RW.luba_event_received(POOL16[1])),
+                 ("observed16-twice", RW.luba_event_received(POOL16[8])),
+                 ("observed24", RW.luba_event_received(POOL24[1])),
+                 ("bus-error", RW.luba_event(0x80 | 63, [])),
+                 ("event-type-1-3", RW.luba_event(0x40, [])),
+                 ("tx-response", RW.luba_frame(0x33, [1, 0])),
+                 ("device-info", RW.luba_frame(0x21, list(range(1, 21)))),
+                 ("settings", RW.luba_frame(0x2B, [1, 2, 3])),
+                 ("host-code", RW.luba_frame(0x32, [0, 16, 5, 0xFF, 0, 0, 0])),
+                 ("unknown-command", RW.luba_frame(0x00, [1, 2])),
+                 ("bad-checksum", RW.luba_frame(0x31, [0, 0, 0, 0x88, 0x11], bad_checksum=0x40))],
+        "sci": [("status", RW.sci_frame(0x00, 0, 0, 0)), ("status1", RW.sci_frame(0x31, 0, 0, 0)),
+                ("backward", RW.sci_frame(0x02, 0, 0, 0x5A)),
+                ("observed16", RW.sci_frame(0x03, 0, *POOL16[1])),
+                ("observed16-twice", RW.sci_frame(0x13, 0, *POOL16[8])),
+                ("observed24", RW.sci_frame(0x08, *POOL24[1])),
+                ("unsupported-kind4", RW.sci_frame(0x04, 1, 2, 3)), ("unsupported-kind5", RW.sci_frame(0x05, 1, 2, 3)),
+                ("unsupported-kind6", RW.sci_frame(0x06, 1, 2, 3)),
+                ("error", RW.sci_frame(0x07, 0, 0, 3)), ("error-undefined", RW.sci_frame(0x07, 0, 0, 9)),
+                ("unknown-command", RW.sci_frame(0x0C, 1, 2, 3)),
+                ("bad-checksum", RW.sci_frame(0x02, 0, 0, 0x11, bad_checksum=0x40))],
+    }
+    for proto in ("luba", "sci"):
+        good_ = good if proto == "luba" else sgood
+        ks = kinds[proto]
+        for count in (40, 70, 150):
+            for name, fr in ks:
+                s = fr * count + good_
+                yield {"proto": proto, "stream": s.hex(), "cuts": [[len(fr) + 2, 7 * len(fr) - 1], [len(s) // 2 + 1]],
+                       "gaps": [[0.25, 0.0], [5.0]], "pause": GAPS[1 + count % 3],
+                       "segs": ["long:" + name], "tail": {"mode": "direct", "len": len(good_)}}
+            # mixtures: all kinds taking turns; delivered kinds only; pairs of kinds
+            mixes = [ks, [k for k in ks if k[0] in ("backward", "sent", "observed16", "observed24", "status", "error")]]
+            mixes += [[ks[i], ks[(i + 1 + count % 3) % len(ks)]] for i in range(len(ks))]
+            for mix in mixes:
+                unit = b"".join(fr for _, fr in mix)
+                reps = -(-count // len(mix)) if len(mix) > 2 else count
+                s = unit * reps + good_
+                yield {"proto": proto, "stream": s.hex(), "cuts": [[3, len(unit) + 1, len(s) - 2], [len(s) // 3, len(s) // 3 * 2 + 1]],
+                       "gaps": [[0.05, 5.0, 0.0], [0.25]], "pause": GAPS[(count // 10) % 4],
+                       "segs": ["long:" + "+".join(k for k, _ in mix)], "tail": {"mode": "direct", "len": len(good_)}}
 
 
 def _sweep_shard(arg):
@@ -626,4 +728,5 @@ def run(ctx):
     ctx.result.exhaustive = False
     ctx.result.extra["hypothesis_examples_per_shard"] = {"luba (12 shards)": n_luba, "sci (4 shards)": n_sci}
     ctx.result.extra["sweep"] = "every LUBA length byte 0..255 x 3 command bytes x 4 fillers x 2 tails; every LUBA " \
-                                "command code; every LUBA event status byte; every SCI status byte; every SCI checksum error"
+                                "command code; every LUBA event status byte; every SCI status byte; every SCI checksum error; " \
+                                "40 / 70 / 150 repetitions of every well-formed frame kind and of mixtures (LUBA and SCI)"
